@@ -215,7 +215,7 @@ CHECKS = {
         'lean_modules': ['Pangaea.Theorems.C01'],
         'theorem_modules': ['Pangaea.Theorems.C01'],
         'generated': ['C01'],
-        'theorems': ['Pangaea.C01.builtins_initialised', 'Pangaea.C01.bound_consts_initialised', 'Pangaea.C01.arity_guards',
+        'theorems': ['Pangaea.C01.builtins_initialised', 'Pangaea.C01.bound_consts_initialised', 'Pangaea.C01.arity_guards', 'Pangaea.C01.unchecked_assertions_are_the_reviewed_ones',
                      'Pangaea.C01.valRange_never_panics', 'Pangaea.C01.strRange_never_panics', 'Pangaea.C01.arrIndex_never_panics'],
         'harness': ['C01', 'C01prog'],
         'shards': 14,
@@ -224,7 +224,7 @@ CHECKS = {
                 'iterators, Either values + every constant bound by NewEnvWithConsts) called with arity 0, with every moderate pool member as single argument (1/6 sampled quick), sampled pairs, keyword arguments; indexing, chains, variable '
                 'calls and calls on every member; program generator (mostly valid, 88% parse) over all constructs with stdin reads, byte-level mutations of generated and of the repository\'s own programs (NUL, invalid UTF-8, '
                 'truncation, unbalanced brackets), and the three entry points RunSource / StartREPL / RunTest. Oracle: recover() sees no Go panic. non-trivial = all calls / programs that parse; distinct by source',
-        'trusted_base': [KERNEL, AX, 'translator /verif/extract (go/ast): built-in object table and arity guards (fails closed: an unguarded index is an obligation failure)', 'recover() in the harness as the observer of panics; Go runtime fatals (stack overflow, OOM, concurrent map access) kill the harness process and are reported as a broken run'],
+        'trusted_base': [KERNEL, AX, 'translator /verif/extract (go/ast): built-in object table, arity guards (fails closed: an unguarded index is an obligation failure) and the inventory of single-value type assertions compared with the reviewed list in Pangaea/Object/Assertions.lean', 'recover() in the harness as the observer of panics; Go runtime fatals (stack overflow, OOM, concurrent map access) kill the harness process and are reported as a broken run'],
         'assumptions': ['PARTIAL: proof only for the generated tables and the indexing component; the rest of the interpreter is explored, not proved', 'programs that exhaust the evaluation fuel (hook) are discarded: the property excludes non-termination and unbounded memory',
                         'arguments are moderate values so that no built-in is asked for unbounded memory; third-party code (regexp2, dtoa, encoding/json, echo) is not modelled'],
     },
@@ -263,7 +263,8 @@ CHECKS = {
         'theorem_modules': ['Pangaea.Theorems.C03', 'Pangaea.Theorems.C03Scope'],
         'theorems': ['Pangaea.C03.positional', 'Pangaea.C03.arg_var', 'Pangaea.C03.arg_all', 'Pangaea.C03.arg_first', 'Pangaea.C03.keyword_param',
                      'Pangaea.C03.kwarg_var', 'Pangaea.C03.kwarg_all', 'Pangaea.C03.allPres', 'Pangaea.C03.call_changes_no_existing_scope',
-                     'Pangaea.C03.eval_writes_only_current_scope', 'Pangaea.C03.program_writes_only_its_scope', 'Pangaea.C03.call_scope_encloses_definition'],
+                     'Pangaea.C03.eval_writes_only_current_scope', 'Pangaea.C03.program_writes_only_its_scope', 'Pangaea.C03.call_scope_encloses_definition',
+                     'Pangaea.C03.method_call_passes_receiver', 'Pangaea.C03.anonymous_chain_receiver', 'Pangaea.C03.anonymous_chain_without_argument', 'Pangaea.C03.assign_writes_current_scope'],
         'harness': ['C03'],
         'shards': 14,
         'spec_is_function': True,
@@ -293,10 +294,11 @@ CHECKS = {
         'assumptions': ['errors raised inside conversion hooks (B, S, ==) on user objects are outside the property and not generated', 'try / Either handlers are covered by C13; here the handlers are ~ chains and pending defers'],
     },
     'C08': {
-        'lean_modules': ['Pangaea.Theorems.C08'],
-        'theorem_modules': ['Pangaea.Theorems.C08'],
+        'lean_modules': ['Pangaea.Theorems.C08', 'Pangaea.Theorems.C08Out'],
+        'theorem_modules': ['Pangaea.Theorems.C08', 'Pangaea.Theorems.C08Out'],
         'theorems': ['Pangaea.C08.kwparams_any_order', 'Pangaea.C08.kwvars_any_order', 'Pangaea.C08.sortNames_eq_of_perm', 'Pangaea.C08.sortPairs_perm', 'Pangaea.C08.lookup_perm',
-                     'Pangaea.C08.addFirst_keeps', 'Pangaea.C08.addAllFirst_keeps'],
+                     'Pangaea.C08.addFirst_keeps', 'Pangaea.C08.addAllFirst_keeps', 'Pangaea.Core.allStable', 'Pangaea.C08.output_only_grows',
+                     'Pangaea.C08.program_output_only_grows', 'Pangaea.C08.call_output_only_grows', 'Pangaea.C08.stdin_only_consumed'],
         'harness': ['C08'],
         'shards': 14,
         'spec_is_function': True,
@@ -307,10 +309,11 @@ CHECKS = {
         'assumptions': ['KNOWN FINDING: arguments of a variable call recv.^f(args) are parsed but never evaluated', 'goroutine timing at start-up (native sources) is exercised only by the new-process runs'],
     },
     'C14': {
-        'lean_modules': ['Pangaea.Theorems.C14'],
-        'theorem_modules': ['Pangaea.Theorems.C14'],
+        'lean_modules': ['Pangaea.Theorems.C14', 'Pangaea.Theorems.C14Store'],
+        'theorem_modules': ['Pangaea.Theorems.C14', 'Pangaea.Theorems.C14Store'],
         'theorems': ['Pangaea.C14.' + t for t in ['new_is_fresh', 'chain_source_is_copy', 'recur_swaps_only_self', 'recur_other_untouched', 'next_runs_body', 'guarded_yield_stops', 'guarded_yield_yields',
-                     'first_yield_wins', 'yield_is_result', 'result_is_yielded', 'chain_stops_at_stopiter', 'chain_passes_other_errors', 'chain_visits_next']],
+                     'first_yield_wins', 'yield_is_result', 'result_is_yielded', 'chain_stops_at_stopiter', 'chain_passes_other_errors', 'chain_visits_next',
+                     'iterators_keep_identity_and_code', 'next_keeps_identity_and_code']],
         'harness': ['C14'],
         'shards': 14,
         'spec_is_function': True,
